@@ -449,6 +449,17 @@ func main() {
 			}
 		}
 	}
+	// small parts in their own boxes thousands of cells away from the origin (the box is centre +- half size there,
+	// so size / cell can round to just below a whole number)
+	for _, off := range []v3.Vec{{X: 1000, Y: 1000, Z: 1000}, {Y: -700, Z: 300}, {X: 4096.5, Y: -2048.25, Z: 8191.125}, {X: 1e5, Y: 1e5, Z: -1e5}, {X: -333.3, Y: 777.7, Z: 0.1}} {
+		for _, rad := range []float64{1.37, 0.5, 2.113} {
+			sp := tr3(sph(rad), off.X, off.Y, off.Z)
+			sc := scene{fmt.Sprintf("sphere r=%g at %v in its own box", rad, off), sp}
+			for _, n := range []int{40, 50, 64, 100} {
+				jobs = append(jobs, job{sc, n, sp.BoundingBox(), false}, job{sc, n, sp.BoundingBox(), true})
+			}
+		}
+	}
 	done := c.ParFor(len(jobs), func(i int) {
 		j := jobs[i]
 		var r render.Render3 = render.NewMarchingCubesUniform(j.n)
